@@ -54,14 +54,14 @@ func (a sigOut) eq(b sigOut) bool { return a.r.Cmp(b.r) == 0 && a.s.Cmp(b.s) == 
 // in exactly one input.
 func propRelations(t *rapid.T) {
 	d := gen.NonZero256(t, ref.N, "d")
-	dlen := rapid.SampledFrom([]int{32, 32, 33, 48, 64}).Draw(t, "dlen")
+	dlen := gen.Sampled([]int{32, 32, 33, 48, 64}).Draw(t, "dlen")
 	digest := gen.Bytes(t, dlen, dlen, "digest")
 	if rapid.Bool().Draw(t, "small-e") { // leave room for the e+n alias
 		copy(digest, ref.B32(gen.Int256(t, new(big.Int).Sub(ref.Two256, ref.N), "esmall")))
 	}
-	content, ckind := gen.EntropyContent(t, 32+rapid.SampledFrom([]int{0, 1, 8, 32, 40}).Draw(t, "extra"), "rng")
+	content, ckind := gen.EntropyContent(t, 32+gen.Sampled([]int{0, 1, 8, 32, 40}).Draw(t, "extra"), "rng")
 	base := &gen.ScriptedReader{Data: content, FailAfter: -1}
-	rel := rapid.SampledFrom([]string{"same", "chunked", "other-d", "other-e", "entropy-bit", "entropy-tail", "digest-tail", "digest-alias", "digest-bit"}).Draw(t, "relation")
+	rel := gen.Sampled([]string{"same", "chunked", "other-d", "other-e", "entropy-bit", "entropy-tail", "digest-tail", "digest-alias", "digest-bit"}).Draw(t, "relation")
 
 	out1, err := signWith(t, d, digest, base)
 	if err != nil {
@@ -163,12 +163,14 @@ func propReaderFailure(t *rapid.T) {
 	j := rapid.IntRange(0, 34).Draw(t, "j")
 	content, _ := gen.EntropyContent(t, 40, "rng")
 	rd := &gen.ScriptedReader{Data: content, FailAfter: j}
+	var ek string
+	rd.Err, rd.ErrWithData, ek = gen.FailureKind(t, "fail") // also io.EOF: a drained bytes.Reader / finite pool
 	if rapid.Bool().Draw(t, "chunked") {
 		rd.Chunks = rapid.SliceOfN(rapid.IntRange(1, 33), 1, 4).Draw(t, "chunks")
 	}
-	api := rapid.SampledFrom([]string{"SignRaw", "Sign"}).Draw(t, "api")
-	stat.Case("readerfail", []string{fmt.Sprintf("j:%d", j), "api:" + api}, true, []byte(fmt.Sprintf("%d|%x|%x|%v|%s", j, d, digest, rd.Chunks, api)), func() any {
-		return map[string]any{"fail_after": j, "d": d.Text(16), "chunks": rd.Chunks, "api": api}
+	api := gen.Sampled([]string{"SignRaw", "Sign"}).Draw(t, "api")
+	stat.Case("readerfail", []string{fmt.Sprintf("j:%d", j), "api:" + api, "error:" + ek}, true, []byte(fmt.Sprintf("%d|%x|%x|%v|%s|%s", j, d, digest, rd.Chunks, api, ek)), func() any {
+		return map[string]any{"fail_after": j, "d": d.Text(16), "chunks": rd.Chunks, "api": api, "error": ek}
 	})
 	key := lib.PrivKey(d)
 	var err error
@@ -182,7 +184,7 @@ func propReaderFailure(t *rapid.T) {
 	}
 	if j < 32 {
 		if err == nil || gotSig {
-			t.Fatalf("%s succeeded although the entropy source failed after %d bytes", api, j)
+			t.Fatalf("%s succeeded although the entropy source failed (%s) after %d bytes", api, ek, j)
 		}
 	} else if err != nil {
 		t.Fatalf("%s failed although 32 entropy bytes were available: %v", api, err)
@@ -195,9 +197,9 @@ func TestC09_ReaderFailure(t *testing.T) { rapid.Check(t, propReaderFailure) }
 // signature for every key and digest (lengths 32..64).
 func propRFC6979(t *rapid.T) {
 	d := gen.NonZero256(t, ref.N, "d")
-	dlen := rapid.SampledFrom([]int{32, 32, 32, 33, 48, 64}).Draw(t, "dlen")
+	dlen := gen.Sampled([]int{32, 32, 32, 33, 48, 64}).Draw(t, "dlen")
 	digest := gen.Bytes(t, dlen, dlen, "digest")
-	kind := rapid.SampledFrom([]string{"random", "e>=n", "e=n", "zeros", "ones"}).Draw(t, "dkind")
+	kind := gen.Sampled([]string{"random", "e>=n", "e=n", "zeros", "ones"}).Draw(t, "dkind")
 	switch kind {
 	case "e>=n":
 		copy(digest, ref.B32(new(big.Int).Add(ref.N, gen.Small(t, "off"))))
